@@ -150,9 +150,9 @@ def eval_options(args):
     s = _S.get(('opt', ver)) or _S.setdefault(('opt', ver), _cls(ver)(f'''<xs:schema {XS}><xs:simpleType name="HL"><xs:list itemType="xs:hexBinary"/></xs:simpleType>
  <xs:simpleType name="DL"><xs:list itemType="xs:date"/></xs:simpleType>
  <xs:element name="r"><xs:complexType><xs:sequence><xs:element name="d" type="xs:date"/><xs:element name="t" type="xs:duration"/><xs:element name="h" type="xs:hexBinary"/>
-  <xs:element name="b" type="xs:base64Binary"/><xs:element name="n" type="xs:decimal"/><xs:element name="hl" type="HL"/><xs:element name="dl" type="DL"/><xs:element name="i" type="xs:int"/></xs:sequence>
+  <xs:element name="b" type="xs:base64Binary"/><xs:element name="n" type="xs:decimal"/><xs:element name="hl" type="HL"/><xs:element name="dl" type="DL"/><xs:element name="i" type="xs:int"/>{'<xs:element name="ts" type="xs:dateTimeStamp" minOccurs="0"/>' if ver == '1.1' else ''}</xs:sequence>
   <xs:attribute name="digest" type="xs:hexBinary"/><xs:attribute name="when" type="xs:dateTime"/></xs:complexType></xs:element></xs:schema>'''))
-    doc = '<r digest="0AFD" when="2020-01-01T10:00:00Z"><d>2020-02-29</d><t>P1D</t><h>9afd</h><b>YWxwaGE=</b><n>1.50</n><hl>0A 0B</hl><dl>2020-01-01 2020-01-02</dl><i>7</i></r>'
+    doc = '<r digest="0AFD" when="2020-01-01T10:00:00Z"><d>2020-02-29</d><t>P1D</t><h>9afd</h><b>YWxwaGE=</b><n>1.50</n><hl>0A 0B</hl><dl>2020-01-01 2020-01-02</dl><i>7</i>' + ('<ts>2020-01-01T10:00:00Z</ts>' if ver == '1.1' else '') + '</r>'
     kw = dict(datetime_types=dt, binary_types=bt)
     if dec: kw['decimal_type'] = dec
     data = s.decode(doc, **kw)
@@ -164,6 +164,12 @@ def eval_options(args):
     bad = [f'{k}: {kind(data[k])} (value {data[k]!r}), expected {v}' for k, v in exp.items() if kind(data[k]) != v]
     bad += [f'hl[{i}]: {kind(x)}, expected {want_b}' for i, x in enumerate(data['hl']) if kind(x) != want_b]
     bad += [f'dl[{i}]: {kind(x)}, expected {want_dt}' for i, x in enumerate(data['dl']) if kind(x) != want_dt]
+    if ver == '1.1' and kind(data['ts']) != want_dt and type(data['ts']).__name__ != ('DateTimeStamp' if dt else 'str'): bad.append(f"ts: {kind(data['ts'])}, expected {want_dt}")
+    # the typed data re-encodes under the same options and decodes to itself again
+    try:
+        e = s.encode(data, path='r', **kw); d2 = s.decode(e, **kw)
+        if d2 != data: bad.append(f'typed round trip differs: {str(data)[:80]} vs {str(d2)[:80]}')
+    except xmlschema.XMLSchemaException as x: bad.append(f'typed data does not re-encode: {type(x).__name__}: {str(x)[:120]}')
     return dict(args=[ver, dt, bt, getattr(dec, '__name__', None)], bad=bad) if bad else None
 
 
